@@ -19,7 +19,7 @@ PROPERTY = "C16"
 LEVEL = "exploration"
 BUDGET = {"quick": 640, "thorough": 40000}
 CHUNK = 4
-RUN_TIMEOUT_S = 300
+RUN_TIMEOUT_S = 1500
 MAX_DISCARD_FRACTION = 0.5
 RULE = (
     "seeded sessions: (a) chains with joints, force laws in force and compliance form, Maxwell elements, motors and PD "
